@@ -441,6 +441,14 @@ class Interp:
             return scalar_attr(self, v, name)
         if isinstance(v, (str, tuple, list, dict, set, slice, range, frozenset)):
             return native_method(self, v, name)
+        if isinstance(v, Builtin) and v.name == "object" and name == "__setattr__":
+            def _setattr(it, a, k):
+                if not isinstance(a[0], Obj):
+                    raise AnalysisError("object.__setattr__ on non-object")
+                a[0].attrs[a[1]] = a[2]
+                return None
+
+            return Builtin("object.__setattr__", _setattr)
         if isinstance(v, Closure) and name == "__name__":
             return v.node.name if hasattr(v.node, "name") else "<lambda>"
         if isinstance(v, Partial) and name == "func":
